@@ -95,6 +95,37 @@ class C18(CfProp):
                         break
         out_ev = "None" if new_event is None else f"(Some {GEV.c_event(new_event)})"
         term = f"CCg {c_graph(g)} {GEV.c_event(event)} {c_list(topo)} {GEV.c_cgraph(cf)} {out_ev}"
+        # the Python oracle against the formal semantics (Sem/Scm.v): at a few exogenous states the oracle's verdict 'the event is true here' has to
+        # be the value of event_true in Coq, for the same response tables and base assignment
+        import zlib
+        if zlib.crc32(repr(case).encode()) % 4 == 0 and len(g["bid"]) <= 4:
+            import random as _random
+            from y0.dsl import CounterfactualVariable
+            m = CTF.FSCM(g, 0)
+            node_of = {GE.ALPHA[v]: v for v in g["nodes"]}
+            r2 = _random.Random(repr(case))
+            states = r2.sample(m.noise, min(6, len(m.noise)))
+            rho = {name: r2.randint(0, 1) for name in node_of}
+            def bit(x):
+                return "true" if x else "false"
+            tabs = []
+            for ua, na, _ in states:
+                per = []
+                for v in m.V:
+                    pa, us, tab = m.f[v]
+                    rows = [f"({c_list(pv, bit)}, {bit(tab[tuple(pv) + tuple(ua[i] for i in us) + (na[v],)])})" for pv in itt.product(range(2), repeat=len(pa))]
+                    per.append(f"({v}, ({c_list(pa)}, [{'; '.join(rows)}]))")
+                tabs.append("[" + "; ".join(per) + "]")
+            expected = []
+            for ua, na, _ in states:
+                ok = True
+                for var, val in event.items():
+                    do = {node_of[iv.name]: CTF.val_of(iv.star, iv.name, rho) for iv in getattr(var, "interventions", ())} if isinstance(var, CounterfactualVariable) else {}
+                    if m.solve(ua, na, do)[node_of[var.name]] != CTF.val_of(val.star, val.name, rho):
+                        ok = False
+                expected.append(ok)
+            base = "[" + "; ".join(f"({node_of[n]}, {bit(b)})" for n, b in sorted(rho.items())) + "]"
+            term = [term, f"CSem {c_list(m.V)} [{'; '.join(tabs)}] {base} {GEV.c_event(event)} {c_list(expected, bit)}"]
         worlds = {frozenset(v.interventions) for v in event if hasattr(v, "interventions")}
         return {"out": [sorted(map(str, cf.nodes())), None if new_event is None else {str(k): str(v) for k, v in new_event.items()}],
                 "violation": violation, "nontrivial": len(worlds) >= 2 or new_event is None or (new_event is not None and set(new_event) != set(event)),
